@@ -158,7 +158,8 @@ impl<D: DictionaryAccess> DictBuilder<D> {
     pub fn new_user(system: D) -> Self {
         let mut bldr = Self::new_empty();
         bldr.set_user(true);
-        bldr.lexicon.preload_pos(system.grammar());
+        bldr.lexicon
+            .preload_pos(system.grammar(), system.lexicon().num_system_pos());
         let cm = system.grammar().conn_matrix();
         bldr.lexicon
             .set_max_conn_sizes(cm.num_left() as _, cm.num_right() as _);
